@@ -14,8 +14,8 @@ import (
 
 func init() {
 	register("C04", &propDef{
-		Run: checkC04,
-		Explanation: "Static decision of the tear-down clauses. (1) Release table: for every abstract state after the proxy returns (proxy error or not, peer still attached or not) every path of the admission function re-acquires Broker.mu, stores \"\" into Broker.key and nil into its own cancel slot, invokes the loaded peer cancel iff the peer is attached, and emits the 'gone' notice and the disconnected event exactly once iff the peer is gone; the ready notice and connected event are emitted exactly once iff the peer is already attached at admission; WaitGroup Add/Done are paired on every path and Add happens under the lock only when noMore is false. (2) Every select in the two proxies has a ctx.Done() arm on the stream's context and no bare channel operation blocks outside a select; under the abstraction 'the context is cancelled' every path of each proxy reaches a return. (3) Every goroutine started by the proxies performs channel operations only as arms of a select with a ctx.Done() arm. (4) In Do, noMore is set under the lock before wg.Wait. (5) The server's event switch handles every EventType constant and re-prints the callback help on the disconnected event unless -one-shell. Together with C01's admission table (tear-down state b.key==\"\" with a cancel still set is refused, idle state is admitted with any ID) this gives: the other direction is cancelled, one 'gone' per generation, and the broker returns to the idle abstract state from which any next shell is admitted.",
+		Run:         checkC04,
+		Explanation: "Static decision of the tear-down clauses. (1) Release table: for every abstract state after the proxy returns (proxy error or not, peer still attached or not) every path of the admission function re-acquires Broker.mu, stores \"\" into Broker.key and nil into its own cancel slot, invokes the loaded peer cancel iff the peer is attached, and emits the 'gone' notice and the disconnected event exactly once iff the peer is gone; the ready notice and connected event are emitted exactly once iff the peer is already attached at admission; WaitGroup Add/Done are paired on every path and Add happens under the lock only when noMore is false. (2) Every select in the two proxies has a ctx.Done() arm on the stream's context and no bare channel operation blocks outside a select; under the abstraction 'the context is cancelled' every path of each proxy reaches a return. (3) Every goroutine started by the proxies performs channel operations only as arms of a select with a ctx.Done() arm. (4) In Do, noMore is set under the lock before wg.Wait. (5) The server's event switch handles every EventType constant and re-prints the callback help on the disconnected event unless -one-shell. Together with C01's admission table (tear-down state b.key==\"\" with a cancel still set is refused, idle state is admitted with any ID) this gives: the other direction is cancelled, one 'gone' per generation, and the broker returns to the idle abstract state from which any next shell is admitted. (6) Every send of an Event is a plain send or an arm of a blocking select whose other arms are ctx.Done() only.",
 		Assumptions: []string{
 			"context cancellation closes Done(); a cancelled proxy's transport Read/Write return once the transport is closed (the property's premise)",
 			"channel operations are the only blocking operations considered besides the transport",
